@@ -42,29 +42,8 @@ YAMLS = W.SHIPPED + ['examples/coin_env.yaml']
 
 
 def reset_client(r, name=None):
-    """hand-assembled client around a built-in (random) reset function"""
-    name = name or r.choice(['empty', 'rooms', 'dynamic_obstacles', 'keydoor', 'crossing', 'teleport', 'memory', 'memory_rooms'])
-    cols = r.sample(['RED', 'GREEN', 'BLUE', 'YELLOW'], r.randint(2, 4))
-    reset = {
-        'empty': lambda: {'name': 'empty', 'shape': [r.randint(4, 7), r.randint(4, 7)], 'random_agent': r.random() < 0.7, 'random_exit': False},
-        'rooms': lambda: {'name': 'rooms', 'shape': [r.choice([7, 9]), r.choice([7, 9])], 'layout': [2, 2]},
-        'dynamic_obstacles': lambda: {'name': 'dynamic_obstacles', 'shape': [r.randint(5, 7), r.randint(5, 7)], 'num_obstacles': r.randint(1, 4), 'random_agent': r.random() < 0.5},
-        'keydoor': lambda: {'name': 'keydoor', 'shape': [r.randint(5, 8), r.randint(6, 8)]},
-        'crossing': lambda: {'name': 'crossing', 'shape': [r.choice([5, 7]), r.choice([5, 7, 9])], 'num_rivers': r.randint(1, 3), 'object_type': 'Wall'},
-        'teleport': lambda: {'name': 'teleport', 'shape': [r.randint(5, 7), r.randint(5, 7)]},
-        'memory': lambda: {'name': 'memory', 'shape': [r.randint(5, 8), r.choice([5, 7, 9])], 'colors': cols},
-        'memory_rooms': lambda: {'name': 'memory_rooms', 'shape': [r.choice([7, 9]), r.choice([7, 9])], 'layout': [2, 2], 'colors': cols, 'num_beacons': r.randint(1, 2), 'num_exits': 2},
-    }[name]()
-    chain = ['move_agent', 'turn_agent'] + {'dynamic_obstacles': ['move_obstacles'], 'teleport': ['teleport'], 'keydoor': ['actuate_door', 'pickndrop']}.get(name, [])
-    if r.random() < 0.3 and 'move_obstacles' not in chain:
-        chain.append('move_obstacles')
-    return {
-        'kind': 'hand', 'reset': reset, 'world': None, 'pool_worlds': [], 'chain': chain,
-        'rewards': [{'name': 'living_reward'}, {'name': 'reach_exit'}], 'term': {'name': 'reach_exit'},
-        'obs': {'name': r.choice(['stochastic_raytracing', 'stochastic_raytracing', 'raytracing', 'partially_occluded']), 'area': [[-4, 0], [-2, 2]]},
-        'actions': list(W.ACTIONS), 'types': list(W.BUILTIN_TYPES), 'colors': ['NONE', 'RED', 'GREEN', 'BLUE', 'YELLOW'],
-        'via_factory': r.random() < 0.5, 'env_seed': r.randrange(2**31),
-    }
+    """hand-assembled client around a built-in (random) reset function (fixed simple composition)"""
+    return W.gen_reset_client(r, name, random_composition=False)
 
 
 def gen_client(r, run):
